@@ -199,6 +199,9 @@ func (g *vfE3Gen) identifyBody() []byte {
 		case 7:
 			return fmt.Sprint(hi + 1)
 		case 8:
+			if g.r.Intn(2) == 0 {
+				return vfE3WrapMs(g.r, lo, hi)
+			}
 			return g.pick("-2", "1", "9223372036854775807", "-9223372036854775808", "1.5", "\"5\"", "null", "1e3", "9223372036854775808")
 		default:
 			return fmt.Sprint(lo + int64(g.r.Intn(int(hi-lo+1))))
@@ -241,6 +244,41 @@ func (g *vfE3Gen) identifyBody() []byte {
 		s = g.pick("", "{", "[]", "null", "nope", `{"heartbeat_interval":}`, `{"HEARTBEAT_INTERVAL":1000}`, "{} x", " {} ")
 	}
 	return []byte(s)
+}
+
+// vfE3WrapMs returns a millisecond count far outside [lo, hi] ms whose product with 10^6 ns, computed in
+// 64-bit arithmetic, lands inside [lo, hi] ms: v = (t + k*2^64) / 10^6 for a t in the window that makes
+// the division exact. A range check done after the conversion to time.Duration accepts it.
+func vfE3WrapMs(r *vfRand, lo, hi int64) string {
+	two64 := new(big.Int).Lsh(big.NewInt(1), 64)
+	mil := big.NewInt(1000000)
+	for try := 0; try < 8; try++ {
+		k := big.NewInt(int64(1 + r.Intn(400000)))
+		if r.Intn(2) == 0 {
+			k.Neg(k)
+		}
+		off := new(big.Int).Mul(k, two64)
+		loNs := new(big.Int).Mul(big.NewInt(lo), mil)
+		hiNs := new(big.Int).Mul(big.NewInt(hi), mil)
+		// t = loNs + ((-off - loNs) mod 10^6)
+		m := new(big.Int).Neg(off)
+		m.Sub(m, loNs).Mod(m, mil)
+		t := new(big.Int).Add(loNs, m)
+		span := new(big.Int).Sub(hiNs, t)
+		if span.Sign() < 0 {
+			continue
+		}
+		// any t + j*10^6 <= hiNs works too
+		if steps := new(big.Int).Div(span, mil); steps.Sign() > 0 && steps.IsInt64() {
+			t.Add(t, new(big.Int).Mul(mil, big.NewInt(int64(r.Intn(int(steps.Int64()%1000000+1))))))
+		}
+		v := new(big.Int).Add(t, off)
+		v.Div(v, mil)
+		if v.IsInt64() {
+			return v.String()
+		}
+	}
+	return "18446744075710"
 }
 
 // one command (line + optional body bytes); `k` = messages it publishes if accepted (-1: not a publish)
@@ -401,7 +439,17 @@ func (g *vfE3Gen) mpub() ([]byte, int) {
 	case 3:
 		bodyLen = uint32(o.MaxBodySize)
 	case 4:
-		bodyLen = 1 // the declared size is not what bounds the batch (candidate F10)
+		bodyLen = 1 // far below the content
+	case 5:
+		bodyLen = uint32(4 + 5*count) // the smallest size consistent with the count; the content is larger
+	case 6:
+		bodyLen = uint32(len(full) - 1 - g.r.Intn(3)) // slightly under-declared
+	case 7:
+		bodyLen = uint32(len(full) + 1 + g.r.Intn(3)) // slightly over-declared
+	case 8:
+		if len(full) > 9 {
+			bodyLen = uint32(9 + g.r.Intn(len(full)-9)) // anywhere between the minimum and the content
+		}
 	}
 	line := "MPUB " + g.topic()
 	if g.r.Intn(14) == 0 {
@@ -758,6 +806,7 @@ func TestVerifE3Proto(t *testing.T) {
 			}
 			emitJSON(g)
 			c0, d0 := v.Counts()
+			vfE3NoteLast(id, stream)
 			res := v.RunConn(stream, g.r)
 			snap := v.Snapshot()
 			c1, d1 := v.Counts()
@@ -767,7 +816,7 @@ func TestVerifE3Proto(t *testing.T) {
 				hist["reply:"+r]++
 			}
 			if res.end == "panic" || res.end == "hang" {
-				fail("ORACLE-FAIL key=%s stream=%s what=IOLoop %s %v", res.end, vfHex(stream), res.end, res.replies)
+				fail("ORACLE-FAIL key=%s stream=%s conf=%s what=the connection handler ended in a %s: %v (nothing recovers it in nsqd: the daemon dies, every other client is dropped)", res.end, vfHex(stream), id, res.end, res.replies)
 			}
 			if probe && res.end != "upgraded" {
 				// direct oracle on the implementation's own observables
@@ -801,10 +850,12 @@ func TestVerifE3Proto(t *testing.T) {
 			}
 		}
 		if i%25 == 0 {
-			if gd := good[id]; gd != nil {
+			// every bystander pair publishes / consumes regularly (whatever node the cases run on): a
+			// well-behaved client also answers the server's heartbeats, which needs traffic within 2 x 30 s
+			for gid, gd := range good {
 				if err := gd.Tick(); err != nil {
-					fail("ORACLE-FAIL key=bystander stream=- what=%v (after case %d on %s)", err, i, id)
-					delete(good, id)
+					fail("ORACLE-FAIL key=bystander stream=- what=%v (after case %d on %s)", err, i, gid)
+					delete(good, gid)
 				}
 			}
 		}
@@ -877,11 +928,12 @@ func vfE3Replay(path string, nodes map[string]*vfE3Node, out *vfOut, jsonSeen ma
 				continue
 			}
 			stream := vfE3Unhex(w[2])
+			vfE3NoteLast(w[1], stream)
 			res := v.RunConn(stream, rnd)
 			out.Case(line, vfE3ImplLine(res, v.Snapshot()))
 			hist["corpus:io"]++
 			if res.end == "panic" || res.end == "hang" {
-				fail("ORACLE-FAIL key=%s stream=%s what=IOLoop %s (corpus %s)", res.end, w[2], res.end, filepath.Base(path))
+				fail("ORACLE-FAIL key=%s stream=%s conf=%s what=the connection handler ended in a %s: %v (corpus %s)", res.end, w[2], w[1], res.end, res.replies, filepath.Base(path))
 			}
 		case "http":
 			v := nodes[w[1]]
